@@ -5,6 +5,7 @@ import (
 	"fmt"
 	"os"
 
+	"verifharness/internal/agwpeh"
 	"verifharness/internal/b2f"
 	"verifharness/internal/lzh"
 	"verifharness/internal/mbox"
@@ -17,6 +18,7 @@ import (
 
 var cmds = map[string]func([]string) int{
 	"mbox":          mbox.Main,
+	"agwpe":         agwpeh.Main,
 	"mboxfs-c12":    mboxfs.MainConfine,
 	"mboxfs-c11":    mboxfs.MainCrash,
 	"lzh-run":       lzh.MainRun,
